@@ -482,8 +482,9 @@ def _ob_ieee_roundtrip(i: int) -> bool:
     post: __return__
     """
     from nixio.dimensions import SampledDimension, IndexMode
-    si, off, mode, N = PART
-    assume(i <= N)
+    si, off, mode, N = PART[:4]
+    lo = PART[4] if len(PART) > 4 else 0
+    assume(lo <= i <= N)
     d = SampledDimension.__new__(SampledDimension)
     d._h5group = _G({"sampling_interval": si, "offset": off if off else None})
     pos = d.position_at(i)
@@ -499,9 +500,10 @@ def _ob_ieee_roundtrip(i: int) -> bool:
 def _custom_ieee():
     import os
     from vf import smt_fp
-    si, off, mode, N = PART
-    r = smt_fp.decide(os.environ.get("VERIF_REPO", "/repo"), si, off, mode, N)
-    r["bounds"] = ["0 <= i <= %d" % N, "sampling_interval == %r (IEEE double)" % si,
+    si, off, mode, N = PART[:4]
+    lo = PART[4] if len(PART) > 4 else 0
+    r = smt_fp.decide(os.environ.get("VERIF_REPO", "/repo"), si, off, mode, N, lo=lo)
+    r["bounds"] = ["%d <= i <= %d" % (lo, N), "sampling_interval == %r (IEEE double)" % si,
                    "offset == %r (IEEE double)" % off, "mode == %s" % mode]
     r["asserts"] = ["index_of(position_at(i), mode) == i (i - 1 for Less; IndexError iff Less and i == 0), "
                     "evaluated in IEEE-754 binary64 with round-to-nearest-even"]
@@ -778,12 +780,14 @@ OBLIGATIONS = [
        partition_by_tier={
            "quick": [(si, off, m, 4096) for si, off in ((0.1, 0.0), (0.001, 0.0), (0.3, 0.7))
                      for m in ("LessOrEqual", "GreaterOrEqual", "Less")],
-           "thorough": [(si, off, m, 65536) for si, off in ((0.1, 0.0), (0.001, 0.0), (0.3, 0.7), (0.1, -1.3),
-                                                            (2.5e-05, 0.0), (1.0 / 3.0, 0.25))
-                        for m in ("LessOrEqual", "GreaterOrEqual", "Less")]},
+           "thorough": [(si, off, m, lo + 4095, lo) for si, off in ((0.1, 0.0), (0.001, 0.0), (0.3, 0.7),
+                                                                    (0.1, -1.3), (2.5e-05, 0.0),
+                                                                    (1.0 / 3.0, 0.25))
+                        for m in ("LessOrEqual", "GreaterOrEqual", "Less") for lo in (0, 4096, 8192, 12288)]},
        functions=[_S + "position_at", _S + "index_of"], replay=_replay_ieee,
        outside="other interval / offset pairs than the listed concrete doubles; sample numbers above "
-               "N; positions that are not exactly position_at(i)"),
+               "4096 (quick) / 16383 (thorough, in four chunks); positions that are not exactly "
+               "position_at(i)"),
     Ob("slice_mode_mapping", _ob_slice_mode, timeout=30,
        functions=["nixio.dimensions.SliceMode.to_index_mode"]),
 ]
